@@ -67,6 +67,7 @@ void World::begin(uint64_t sched_salt, RunResult *r, bool keep_log, bool echo) {
   deferred.clear();
   pollers.clear();
   taps.clear();
+  stream_taps.clear();
   faults.clear();
   link_count.clear();
   partitioned.clear();
@@ -95,6 +96,7 @@ void World::begin(uint64_t sched_salt, RunResult *r, bool keep_log, bool echo) {
   };
   h.on_stream_data = [this](simk::Stream *s, int side, const Bytes &b) {
     count("probe.stream_bytes", b.size());
+    for (auto &t : stream_taps) t(s->id, side, b);
     auto it = deliver_chunks.find({s->id, side});
     size_t off = 0;
     int64_t delay = base_latency_us;
